@@ -85,6 +85,10 @@ class Prop:
     trusted_base: list = field(default_factory=list)
     assumptions: list = field(default_factory=list)
     level: str = "proof"
+    level_text: str = ""
+    level_note: str = ""
+    technique: str = "Lean 4 theorem about an executable model + correspondence run against the code"
+    design_ref: str = "DESIGN.md §4"
 
 
 def load_known_findings():
